@@ -1032,6 +1032,15 @@ func (h *NtfnsHandler) asyncImport(walletId string) (finish bool, err error) {
 func (h *NtfnsHandler) asyncRemove(walletId string) error {
 	am, err := h.walletMgr.ksmgr.GetAddrManagerByAccountID(walletId)
 	if err != nil {
+		// an earlier attempt may have dropped the keystore from the cache inside a
+		// transaction that then failed to commit: reload it from the store
+		mwdb.View(h.walletMgr.db, func(rtx mwdb.ReadTransaction) error {
+			h.walletMgr.ksmgr.UpdateManagedKeystores(rtx, walletId)
+			return nil
+		})
+		am, err = h.walletMgr.ksmgr.GetAddrManagerByAccountID(walletId)
+	}
+	if err != nil {
 		logging.CPrint(logging.ERROR, "unexpected error", logging.LogFormat{"err": err, "walletId": walletId})
 		return nil
 	}
